@@ -110,3 +110,122 @@ func c01HTTPRequestLine(c *Ctx) {
 		c.Unresolved("C01.R6", fmt.Sprintf("method calls on clientStream.request (found %d)", n))
 	}
 }
+
+// c01H2BodyCopied (R7): HTTP/2 body chunks are copied out of the connection read buffer.
+// M*Conn.HandleFrame returns the DATA payload as a []byte that is a view of the connection's read buffer
+// (MFramer.ReadFrame slices data.Bytes()). The buffer is drained and refilled by the next read, while the body is
+// forwarded later by a worker and kept for retries. Clause: in pkg/stream/http2 that []byte is only read or copied
+// (IoBuffer.Write / copy / string conversion / len); it is never wrapped (NewIoBufferBytes), stored in a field,
+// appended as a slice value, or handed to a call that may keep it.
+func c01H2BodyCopied(c *Ctx) {
+	pkg := "pkg/stream/http2"
+	n := 0
+	for _, typ := range []string{"serverStreamConnection", "clientStreamConnection"} {
+		fn := c.M(pkg, typ, "handleFrame")
+		if fn == nil {
+			c.Unresolved("C01.R7", typ+".handleFrame")
+			continue
+		}
+		// sources: []byte results of HandleFrame
+		var srcs []ssa.Value
+		for _, cs := range callsIn(fn, false, func(cc *ssa.CallCommon) bool { return methodName(cc) == "HandleFrame" }) {
+			for _, r := range refs(cs.Instr.(ssa.Value)) {
+				if ex, ok := r.(*ssa.Extract); ok && isByteSlice(ex.Type()) {
+					srcs = append(srcs, ex)
+				}
+			}
+		}
+		if len(srcs) == 0 {
+			c.Unresolved("C01.R7", typ+".handleFrame: []byte result of HandleFrame")
+			continue
+		}
+		tainted := map[ssa.Value]bool{}
+		for _, s := range srcs {
+			tainted[s] = true
+		}
+		bad := ""
+		var badAt ssa.Instruction
+		for iter := 0; iter < 5; iter++ {
+			changed := false
+			forEachInstr(fn, false, func(_ *ssa.Function, in ssa.Instruction) {
+				mark := func(v ssa.Value) {
+					if !tainted[v] {
+						tainted[v] = true
+						changed = true
+					}
+				}
+				switch x := in.(type) {
+				case *ssa.Phi:
+					for _, e := range x.Edges {
+						if tainted[e] {
+							mark(x)
+						}
+					}
+				case *ssa.Slice:
+					if tainted[x.X] {
+						mark(x)
+					}
+				case *ssa.UnOp:
+					// load of a local that holds the slice (results spilled)
+					if al, ok := localAlloc(x); ok {
+						for _, r := range refs(al) {
+							if st, isS := r.(*ssa.Store); isS && tainted[st.Val] {
+								mark(x)
+							}
+						}
+					}
+				case *ssa.Store:
+					if tainted[x.Val] {
+						if _, isAl := x.Addr.(*ssa.Alloc); isAl {
+							return // local variable
+						}
+						if bad == "" {
+							bad, badAt = "stored outside the function's locals", in
+						}
+					}
+				case *ssa.Call:
+					cc := x.Common()
+					for i, a := range cc.Args {
+						if !tainted[a] {
+							continue
+						}
+						name := methodName(cc)
+						if _, isB := cc.Value.(*ssa.Builtin); isB {
+							if name == "append" && i == 1 {
+								// append(dst, data...) copies the bytes; append(sliceOfSlices, data) keeps it
+								if isByteSlice(cc.Args[0].Type()) {
+									continue
+								}
+								if bad == "" {
+									bad, badAt = "appended as a value", in
+								}
+							}
+							continue // len, copy, cap
+						}
+						switch name {
+						case "Write", "WriteString", "Debugf", "Infof", "Errorf", "Warnf", "Tracef":
+							continue // copies / formats
+						}
+						if bad == "" {
+							bad, badAt = "passed to "+name+" (may keep the slice)", in
+						}
+					}
+				case *ssa.MakeInterface, *ssa.MakeClosure:
+					// formatted logging wraps into interface: handled at the call
+				}
+			})
+			if !changed {
+				break
+			}
+		}
+		n++
+		pos := fn.Pos()
+		if badAt != nil {
+			pos = badAt.Pos()
+		}
+		c.Check("C01.R7", funcKey(fn)+":body-copied-out-of-read-buffer", pos, bad == "", "the DATA payload is only copied (Write) or measured", "the HTTP/2 DATA payload, a view of the connection read buffer, is "+bad+": the next read on the connection overwrites a body that is still waiting to be forwarded (or retried)")
+	}
+	if n < 2 {
+		c.Unresolved("C01.R7", "http2 handleFrame functions")
+	}
+}
